@@ -192,15 +192,24 @@ def main(tier):
         text = apidoc.render(d)[0]
         cases.append(rel.case("cs%d" % k, text))
         casecases["cs%d" % k] = (text, "http GET /" + "/".join(a), ["zi"], "http GET /" + "/".join(b), declb)
+    # one Path directive that feeds interactions with different numbers of parameters, in both orders of declaration
+    long_url = {"t": "url", "path": ["zm", "{zy}", "{zz}"], "tags": [], "pathdecl": ["zy", "zz"], "methods": [copy.deepcopy(simple)]}
+    short_m = {"t": "method", "m": dict(copy.deepcopy(simple), path=["zm", "{zy}"])}
+    mid_m = {"t": "method", "m": dict(copy.deepcopy(simple), verb="PUT", path=["zm", "{zy}", "{zz}", "more"])}
+    for k, blocks in enumerate([[short_m, long_url, mid_m], [long_url, short_m, mid_m], [mid_m, short_m, long_url], [long_url, mid_m, short_m]]):
+        text = apidoc.render(blocks)[0]
+        cases.append(rel.case("sh%d" % k, text))
+        casecases["sh%d" % k] = (text, "http GET /zm/{zy}", ["zy"], "http GET /zm/{zy}/{zz}", ["zy", "zz"])
+        casecases["sh%db" % k] = (text, "http PUT /zm/{zy}/{zz}/more", ["zy", "zz"], "http GET /zm/{zy}", ["zy"])
     obs = harness("run", cases)
     for cid, (text, ia, va, ib, vb) in casecases.items():
-        o = obs[cid]
+        o = obs[cid.rstrip("b")]
         chk.evaluations += 1
         chk.traces += 1
         chk.nontrivial.add(text)
         bad = None
         if o["outcome"] != "ok":
-            bad = "two paths that differ in letter case are not accepted: %s" % rel.describe(o)
+            bad = "%s are not accepted: %s" % ("two paths that differ in letter case" if cid.startswith("cs") else "paths sharing one Path directive", rel.describe(o))
         else:
             have = {i["id"]: i["pathvars"] for i in apidoc.project(o["json"])[0]["interactions"]}
             for iid, want in ((ia, va), (ib, vb)):
